@@ -1,9 +1,9 @@
 #!/bin/bash
 # runs every seeded change against its own property's quick check; prints one line per seed
-cd /verif
+cd "$(dirname "$0")/.."
 for d in seeded/*/; do
   id=$(basename $d); prop=${id%-*}
-  out=$(tools/seedtest.sh /verif/seeded/$id $prop 2>&1)
+  out=$(tools/seedtest.sh "$PWD/seeded/$id" $prop 2>&1)
   nviol=$(echo "$out" | grep -o "exit=[0-9]*: [0-9]* violation" | head -1)
   suite=$(echo "$out" | grep -c "suite with change: PASS")
   demo=$(echo "$out" | grep -c "demo with change: FAIL")
